@@ -9,7 +9,7 @@ package main
 // insertion order, so the choice point enumerates every order the runtime can produce.
 
 import (
-	"fmt"
+	"strconv"
 	"runtime"
 	"strings"
 	_ "unsafe"
@@ -29,8 +29,8 @@ var (
 	hookBusy         bool
 	hookMode         int
 	uncontrolledMaps int
-	mapSitesSeen     = map[string]int{}
-	pcCache          = map[uintptr]string{}
+	pcCachePC        []uintptr
+	pcCacheSite      []string
 )
 
 func init() { verifSetMapIterHook(mapIterHook) }
@@ -41,28 +41,41 @@ func mapHookEnd()         { hookCtx = nil }
 // SetMapMode is called by a harness before running code under test.
 func (c *Ctx) SetMapMode(m int) { hookMode = m }
 
+//go:norace
 func siteOf(pc uintptr) string {
-	if s, ok := pcCache[pc]; ok {
-		return s
+	// slice-based cache: map operations are race-instrumented by the runtime even inside
+	// //go:norace functions
+	for i, p := range pcCachePC {
+		if p == pc {
+			return pcCacheSite[i]
+		}
 	}
 	s := ""
 	if f := runtime.FuncForPC(pc); f != nil {
 		name := f.Name()
 		if strings.HasPrefix(name, "github.com/jamespfennell/gtfs") {
 			_, line := f.FileLine(pc)
-			s = fmt.Sprintf("%s:%d", strings.TrimPrefix(name, "github.com/jamespfennell/gtfs"), line)
+			s = strings.TrimPrefix(name, "github.com/jamespfennell/gtfs") + ":" + strconv.Itoa(line)
 		}
 	}
-	pcCache[pc] = s
+	pcCachePC = append(pcCachePC, pc)
+	pcCacheSite = append(pcCacheSite, s)
 	return s
 }
 
+//go:norace
 func mapIterHook(count int, B uint8, pc uintptr) (uintptr, bool) {
 	if hookCtx == nil || hookBusy {
 		return 0, false
 	}
 	hookBusy = true
-	defer func() { hookBusy = false }()
+	r, ok := mapIterHookLocked(count, B, pc)
+	hookBusy = false
+	return r, ok
+}
+
+//go:norace
+func mapIterHookLocked(count int, B uint8, pc uintptr) (uintptr, bool) {
 	site := siteOf(pc)
 	if site == "" {
 		return 0, false
@@ -74,12 +87,11 @@ func mapIterHook(count int, B uint8, pc uintptr) (uintptr, bool) {
 		uncontrolledMaps++
 		return 0, false
 	}
-	mapSitesSeen[site]++
 	switch hookMode {
 	case mapDeviation:
-		return uintptr(hookCtx.Choose("map"+site, count)), true
+		return uintptr(hookCtx.chooseNoRace("map"+site, count, false)), true
 	case mapFree:
-		return uintptr(hookCtx.Free("map"+site, count)), true
+		return uintptr(hookCtx.chooseNoRace("map"+site, count, true)), true
 	}
 	return 0, true
 }
